@@ -399,6 +399,11 @@ def cmp_facts(F, P, f, bb):
         n = 0
         while t[0] == 'un' and t[1] == 'Not' and n < 4:
             t, pol, n = t[2], not pol, n + 1
+        if t[0] == 'call':
+            # a bool-returning local helper whose result is one comparison (operands come back bound to this call's arguments)
+            rs_ = P.root(t)
+            if len(rs_) == 1 and not rs_[0][1] and P.unbound(rs_[0][0])[0] == 'bin':
+                t = P.unbound(rs_[0][0])
         if t[0] != 'bin' or t[1] not in NEG:
             continue
         targets = dict((v, x) for v, x in b['term']['targets'])
@@ -493,3 +498,29 @@ def sink_delegation(ctx, tag, types):
                  '%s of the wrapper performs exactly %s on the sink it wraps and returns its outcome (closing really closes, flushing really flushes)' % (meth, meth),
                  [m.loc(t) for _, t in inner], 'inner operations called: %s' % names_)
     return n
+
+
+def cancel_always_enqueues(ctx, tag):
+    """RequestCancellation (used by the client's call guard and by the server's response guard from their Drop impls): every method that queues an id
+    does so on every path, with its id parameter, on an unbounded queue — a request to cancel is never dropped on the floor."""
+    F, P, R = ctx.F, ctx.P, ctx.run
+    ms = [f for f in F.fns.values() if f.impl_of and f.impl_of.get('self_head') and path_matches(f.impl_of['self_head'], 'cancellations::RequestCancellation')
+          and not F.is_derived(f) and f.kind == 'AssocFn']
+    senders = []
+    for m in ms:
+        for g in F.with_descendants(m):
+            for bb, t in g.calls():
+                if callee_is(t, 'mpsc::UnboundedSender::send', 'mpsc::Sender::try_send', 'mpsc::Sender::send', 'mpsc::Sender::blocking_send'):
+                    senders.append((m, g, bb, t))
+    R.ob(tag, ('RequestCancellation', 'one queueing method'), len(senders) == 1 and senders[0][1].id == senders[0][0].id,
+         'cancellation ids are queued at one site', [g.loc(t) for _, g, _, t in senders])
+    for m, g, bb, t in senders:
+        if g.id != m.id:
+            continue
+        unb = callee_is(t, 'mpsc::UnboundedSender::send')
+        every = cfg.all_paths_pass(m, 0, cfg.exits(m), {bb})
+        idr = P.root(P.operand(m, t['args'][1], at=bb))
+        own = bool(idr) and all(r[0] == 'param' and r[1] == m.id and not norm_path(p) for r, p in idr)
+        R.ob(tag, ('RequestCancellation::' + m.npath.split('::')[-1], 'queues the id unconditionally'), unb and every and own,
+             'a requested cancellation is always queued: the id parameter is sent on an unbounded queue on every path (the callers are Drop impls and cannot retry)',
+             [m.loc(t)], 'unbounded queue: %s; on every path: %s; id is the parameter: %s' % (unb, every, own))
